@@ -252,7 +252,7 @@ fn mutate(r: &mut Rng, mut bs: Vec<u8>) -> (Vec<u8>, &'static str) {
     }
 }
 
-fn nums_to_msg(v: &[u128]) -> Option<MultiplexMsg> {
+pub fn nums_to_msg(v: &[u128]) -> Option<MultiplexMsg> {
     use MultiplexMsg::*;
     let bn = |x: u128| x != 0;
     Some(match v {
